@@ -93,6 +93,18 @@ def data_variants(rng: Any) -> list[tuple[str, np.ndarray, np.ndarray, bool]]:
     # 0-d data
     out.append(("zero-dim:value", np.array(1.5), np.array(2.5), False))
     out.append(("zero-dim:dtype", np.array(1.0, np.float32), np.array(1.0, np.float64), False))
+    # ... the identical-bytes variants again for 0-d and one-element data
+    z32 = np.array(1.0, np.float32)
+    out.append(("zero-dim:dtype-identical-bytes", z32, z32.view(np.int32), False))
+    zi = np.array(-1 - rng.randrange(5), np.int64)
+    out.append(("zero-dim:dtype-identical-bytes:int64-uint64", zi, zi.view(np.uint64), False))
+    out.append(("zero-dim:dtype-identical-bytes:f8-i8", np.array(2.5), np.array(2.5).view(np.int64),
+                False))
+    out.append(("zero-dim:shape-identical-bytes", np.array(1.5), np.array([1.5]), False))
+    out.append(("one-element:shape-identical-bytes", np.array([1.5]), np.array([[1.5]]), False))
+    o32 = np.array([3.0], np.float32)
+    out.append(("one-element:dtype-identical-bytes", o32, o32.view(np.int32), False))
+    out.append(("zero-dim:equal", np.array(1.5), np.array(1.5), True))
     return out
 
 
